@@ -9,7 +9,7 @@ Trace == ndJsonDeserialize("trace.ndjson")
 ASSUME TLCSet(1, 0) /\ TLCSet(2, {})
 Ev == Trace[l]
 IsEvent(e) == l <= Len(Trace) /\ Ev.op = e /\ l' = l + 1
-Key(c) == CASE c = "A" -> "k1" [] c = "B" -> "k2" [] c = "At" -> "k2" [] c = "A3" -> "k3072" [] c = "A4" -> "k4096" [] c = "Ca" -> "k3072" [] c = "S384" -> "k1" [] c = "S512" -> "k2" [] c \in {"L0", "L1", "L2", "L3", "L4", "L5", "L6", "L7"} -> "k1" [] OTHER -> "none"
+Key(c) == CASE c = "A" -> "k1" [] c = "B" -> "k2" [] c = "At" -> "k2" [] c = "A3" -> "k3072" [] c = "A4" -> "k4096" [] c = "Ca" -> "k3072" [] c = "S384" -> "k1" [] c = "S512" -> "k2" [] c = "Kca" -> "k1" [] c = "Kenc" -> "k2" [] c = "Kself" -> "k3072" [] c \in {"L0", "L1", "L2", "L3", "L4", "L5", "L6", "L7"} -> "k1" [] OTHER -> "none"
 Align8(n) == ((n + 7) \div 8) * 8
 RECURSIVE TableLen(_)
 TableLen(es) == IF es = <<>> THEN 0 ELSE Align8(Head(es).dwlength) + TableLen(Tail(es))
@@ -41,7 +41,9 @@ Verify == /\ IsEvent("verify") /\ Ev.outcome \in {"value", "error"}
           /\ (Ev.res = "true" <=> Signed(Ev.c))               \* every signer verifies, nobody else does
           /\ (Ev.res_reparsed = "true" <=> Signed(Ev.c))      \* also on a fresh parse of the serialised bytes
           /\ UNCHANGED <<signers, origlen>>
-Conform == Reset \/ SignOk \/ SignFail \/ Reparse \/ Verify
+(* a digest query (any algorithm) reports the digest of the specification's ranges and changes nothing *)
+HashQuery == /\ IsEvent("hash") /\ Ev.res = "equal" /\ Ev.outcome = "value" /\ UNCHANGED <<signers, origlen>>
+Conform == Reset \/ SignOk \/ SignFail \/ Reparse \/ Verify \/ HashQuery
 Deviate == /\ l <= Len(Trace) /\ ~ENABLED Conform
            /\ TLCSet(2, TLCGet(2) \cup {l})
            /\ l' = Ev.nx /\ signers' = <<>> /\ origlen' = 0
